@@ -138,6 +138,10 @@ fn main() {
                 wall.as_secs_f64()
             );
             match failure {
+                None if stats.harness_panics > 0 => {
+                    eprintln!("{} generated cases made the harness itself panic: harness trouble, no verdict", stats.harness_panics);
+                    std::process::exit(2)
+                }
                 None => std::process::exit(0),
                 Some(f) => {
                     for v in &f.violations {
